@@ -307,7 +307,12 @@ func VerifSyncLoop() {
 	db := vrt.NewFaultDB()
 	d := vrtNodeOn(db)
 	vrtSeedLedger(db, d, sc, bals)
+	seeded := vrt.Snapshot(db)
 	d = vrtResume(db) // the daemon under test is one that was STARTED on this database
+	// a start leaves the committed ledger as it is (its version bookkeeping aside): balances, history,
+	// and the two holder snapshots, which are persistent state between snapshot blocks
+	vrt.Assert("C02.start-up-leaves-the-committed-ledger-untouched", vrt.SameStore(seeded, vrt.Snapshot(db), "pn_sync_version"))
+	vrt.Assert("C14.start-up-keeps-the-holder-snapshots", vrt.SameStore(seeded, vrt.Snapshot(db), "pn_sync_version"))
 	base := vrt.Monitor("dbcalls")
 	failReq := -1
 	k := vrt.Choose("point", nCalls+1) // == nCalls: no DB crash/fault
@@ -369,6 +374,7 @@ func VerifSyncLoop() {
 		// start-up checks accept what it wrote itself) and finds the same ledger
 		d3 := vrtResume(db2)
 		vrt.Assert("C02.daemon-restarts-on-its-own-database", d3.Sync.Synced == tip && vrt.SameStore(vrt.Snapshot(db2), ref[2], "pn_sync_version"))
+		vrt.Assert("C14.start-up-keeps-the-holder-snapshots", vrt.SameStore(vrt.Snapshot(db2), ref[2], "pn_sync_version"))
 		return
 	}
 	vrt.Cover("completed")
